@@ -75,6 +75,14 @@ func newWorld(c caseCfg, careful bool) (*world, error) {
 
 // step applies one op and writes op/obs lines.
 func (w *world) step(tw *trace.W, st *drv.Stats, ws []string) (string, bool) {
+	w.extra = nil
+	var clean []string
+	for _, x := range ws { // derived tokens from an earlier run are recomputed
+		if !strings.HasPrefix(x, "h=") {
+			clean = append(clean, x)
+		}
+	}
+	ws = clean
 	if !w.apply(ws) {
 		return "", false
 	}
@@ -82,12 +90,13 @@ func (w *world) step(tw *trace.W, st *drv.Stats, ws []string) (string, bool) {
 		st.Note("not quiescent after 20s: " + strings.Join(ws, " "))
 	}
 	obs := w.observe()
-	tw.Op("%s", strings.Join(ws, " "))
+	tw.Op("%s", strings.Join(append(append([]string{}, ws...), w.extra...), " "))
 	tw.Obs("%s", obs)
 	for _, c := range w.side {
 		tw.Comment("%s", c[1:])
 	}
 	w.side = nil
+	tw.Flush() // a crash of the emulator must leave the ops that led to it on disk
 	st.Steps++
 	st.Inc("op:" + ws[0] + ":" + opKind(ws))
 	return obs, true
